@@ -429,6 +429,33 @@ def run(tier):
         chk.case('file-set-numbers', nontrivial_key='fsn', sample={'values': vals if st == 'ok' else None})
         if st != 'ok' or list(vals) != [1, 2, 3]:
             chk.fail('file-set-number:not-sequential', {'origins': 3}, f'default file set numbers in the mode: {vals}')
+        # (d') origins with and without a supplied number in any order, in one set or two: a supplied number is kept,
+        # every other origin gets its position in its set (hcFileSetNumber of Model/Hc.lean), whatever numbers are in use
+        Rf = rng('C17', 'file-set-number-sequences')
+        for i in range(60 if tier == 'quick' else 600):
+            plan = [(Rf.choice([None, None, 'S2']), Rf.choice([None, None, None, 1, 2, 3, 4, 2, 3, 15]))
+                    for _ in range(Rf.choice([2, 3, 4, 5]))]
+
+            def fsn2():
+                with high_compatibility_mode():
+                    df = DLISFile(set_identifier='SET-1')
+                    lf = df.add_logical_file(fh_id='H')
+                    out = []
+                    for k, (sn, given) in enumerate(plan):
+                        kw = {} if given is None else {'file_set_number': given}
+                        if sn:
+                            kw['set_name'] = sn
+                        out.append(lf.add_origin(f'O{k}', creation_time='2020/01/01 00:00:00', **kw).file_set_number.value)
+                    return out
+            st, vals = call(fsn2)
+            pos, want = {}, []
+            for sn, given in plan:
+                pos[sn] = pos.get(sn, 0) + 1
+                want.append(pos[sn] if given is None else given)
+            chk.case('file-set-number-sequences', nontrivial_key=('fsq', i), sample={'plan': plan, 'values': vals if st == 'ok' else st})
+            if st != 'ok' or list(vals) != want:
+                chk.fail('file-set-number:not-sequential', {'origins (set name, supplied number)': plan},
+                         f'file set numbers in the mode: {vals}; a supplied number is kept, the others are the positions: {want}')
         # (e) the setters of every name-like and enumerated attribute of every object type, and the units setter of
         # every attribute, in and outside the mode, against the converter model and the mode oracle
         from harness import convert
